@@ -47,7 +47,7 @@ def expected_pen(attr, depth):
 class Rig:
     """A real raw_display.Screen writing into a string buffer."""
 
-    def __init__(self, colors, bce, encoding, bib):
+    def __init__(self, colors, bce, encoding, bib, pal_first=False):
         import urwid
         from urwid.display import raw
 
@@ -56,11 +56,15 @@ class Rig:
         self.encoding = encoding
         self.out = io.StringIO()
         self.screen = raw.Screen(input=io.StringIO(), output=self.out)
+        if pal_first:   # the order MainLoop(palette=...) uses: palette registered before the terminal properties are set
+            for name, fg, bg, mono, fgh, bgh in PAL:
+                self.screen.register_palette_entry(name, fg, bg, mono, fgh, bgh)
         self.screen.set_terminal_properties(colors=colors, bright_is_bold=bib)
         self.screen.bg_bright_is_blink = False
         self.screen.back_color_erase = bce
-        for name, fg, bg, mono, fgh, bgh in PAL:
-            self.screen.register_palette_entry(name, fg, bg, mono, fgh, bgh)
+        if not pal_first:
+            for name, fg, bg, mono, fgh, bgh in PAL:
+                self.screen.register_palette_entry(name, fg, bg, mono, fgh, bgh)
         self.screen._started = True
         self.colors = colors
         self.cache = {}
@@ -120,8 +124,9 @@ def project(canvas, encoding, depth, attr_back):
 
 def run_sequence(cfg, w, h, ops):
     """ops: ('draw', rows, cursor) | ('clear',) | ('resize', w, h).  Returns a trace."""
-    colors, bce, enc, bib = cfg
-    rig = Rig(colors, bce, enc, bib)
+    colors, bce, enc, bib = cfg[:4]
+    pal_first = bool(cfg[4]) if len(cfg) > 4 else False
+    rig = Rig(colors, bce, enc, bib, pal_first)
     ev = []
 
     def attr_back(a):
@@ -152,7 +157,7 @@ def run_sequence(cfg, w, h, ops):
             # what Screen.parse_input does when it reports 'window resize' to the main loop
             rig.screen._resized = False
             ev.append({"t": "resize", "w": cw, "h": chh})
-    return {"w": w, "h": h, "bib": bool(bib), "cfg": [colors, bce, enc, bib], "ops": ops, "ev": ev}
+    return {"w": w, "h": h, "bib": bool(bib), "cfg": [colors, bce, enc, bib, pal_first], "ops": ops, "ev": ev}
 
 
 ATTRS_COMMON = [None, "p_red", "p_brt", "p_und", "p_hi", "p_so", "p_st", "nope", ("spec", "dark cyan,italics", "brown"),
@@ -336,7 +341,7 @@ CHECK_DEADLOCK FALSE
 
 def _sig_of(tr, l):
     e = tr["ev"][l - 1]
-    sig = {"colors": tr["cfg"][0], "bce": tr["cfg"][1], "enc": tr["cfg"][2]}
+    sig = {"colors": tr["cfg"][0], "bce": tr["cfg"][1], "enc": tr["cfg"][2], "palette_first": bool(tr["cfg"][4]) if len(tr["cfg"]) > 4 else False}
     if e["t"] == "exc":
         sig["exc"] = e["exc"]
     # characterise the bottom row of the frame being drawn: the insert trick's input
@@ -364,7 +369,8 @@ def configs(quick):
         for bce in (True, False):
             for enc in ("utf-8", "euc-jp", "iso8859-1"):
                 for bib in (False, True):
-                    out.append((colors, bce, enc, bib))
+                    for pal_first in (False, True):
+                        out.append((colors, bce, enc, bib, pal_first))
     return out
 
 
